@@ -68,3 +68,15 @@ impl TrieMatch {
         Self { value, end_char }
     }
 }
+
+#[cfg(feature = "verif")]
+impl Trie {
+    pub fn verif_from_bytes(data: &[u8]) -> Self {
+        let (da, _) = crawdad::Trie::deserialize_from_slice(data);
+        Self { da }
+    }
+
+    pub fn verif_to_bytes(&self) -> Vec<u8> {
+        self.da.serialize_to_vec()
+    }
+}
